@@ -8,10 +8,11 @@ ID = "C06"
 RULE = ("exhaustive: every byte 0..255 x every predefined alphabet encoding (base-encoded entry, and str entry for ASCII); "
         "strings <= 3 over each alphabet with one foreign/lower-case byte at every position; every ordered pair of "
         "alphabets x source strings (<= 3 exhaustive for small alphabets, sampled otherwise) for re-targeting and "
-        "change_encoding; ragged lists with empty rows; random custom alphabets. Non-trivial = contains a foreign byte, "
+        "change_encoding; ragged lists with empty rows; random custom alphabets; every byte x the three numeric offset encodings "
+        "(Digit/Quality/Cigar of bionumpy.encodings: encode, decode back, ragged shape kept). Non-trivial = contains a foreign byte, "
         "a lower-case letter, or a re-targeting between different alphabets")
 EXHAUSTIVE = {"quick": False, "thorough": False}
-MODEL_OPS = {"enc_byte", "enc_str", "enc_ragged", "retarget", "change", "retarget_view", "change_view"}
+MODEL_OPS = {"offset_byte", "offset_rows", "enc_byte", "enc_str", "enc_ragged", "retarget", "change", "retarget_view", "change_view"}
 ASSUMPTIONS = ["NumPy fancy indexing _lookup[bytes] is element-wise (modelled as List.mapM)",
                "ragged encode = flat encode + unchanged row lengths (npstructures RaggedArray shape handling is external)"]
 
@@ -63,6 +64,28 @@ def tabulate():
     return tabs
 
 
+OFFSET_NAMES = ["NumDigitEncoding", "QualityEncoding", "CigarEncoding"]
+
+
+def _offset_encs():
+    import bionumpy.encodings as E
+    return {"NumDigitEncoding": E.DigitEncoding, "QualityEncoding": E.QualityEncoding, "CigarEncoding": E.CigarEncoding}
+
+
+def tabulate_offsets():
+    """numeric encodings by offset, through their public encode/decode on all 256 uint8 values"""
+    bnp, EncodedArray, EncodedRaggedArray, BaseEncoding, as_encoded_array, change_encoding, Err = _bnp()
+    out = {}
+    allb = np.arange(256, dtype=np.uint8)
+    for name, E in _offset_encs().items():
+        enc = [int(x) for x in np.asarray(E.encode(EncodedArray(allb.copy(), BaseEncoding))).ravel()]
+        d = E.decode(allb.copy())
+        dec = [int(x) for x in np.asarray(d.raw() if hasattr(d, "raw") else d).ravel()]
+        m = int(np.asarray(E.decode(np.zeros(1, dtype=np.uint8))).ravel()[0])     # the text of code 0 is the min code
+        out[name] = (m, enc, dec)
+    return out
+
+
 def regenerate():
     tabs = tabulate()
     out = ["import BnpVerif.Model.C06",
@@ -74,6 +97,10 @@ def regenerate():
         e = ", ".join("none" if x is None else f"some {x}" for x in enc)
         out.append(f"def {name} : Enc := {{\n  alphabet := {alph},\n  encT := [{e}],\n  decT := {dec} }}\n")
     out.append("def all : List (String × Enc) := [" + ", ".join(f'("{n}", {n})' for n in tabs) + "]")
+    offs = tabulate_offsets()
+    for name, (m, enc, dec) in offs.items():
+        out.append(f"\ndef {name} : OffsetEnc := {{\n  minCode := {m},\n  encT := {enc},\n  decT := {dec} }}")
+    out.append("\ndef offsets : List (String × OffsetEnc) := [" + ", ".join(f'("{n}", {n})' for n in offs) + "]")
     out.append("\nend Gen.C06\n")
     return [("BnpVerif/Gen/C06.lean", "\n".join(out))]
 
@@ -85,6 +112,12 @@ def _text(x):
 
 
 def cases(tier, rng):
+    for n in OFFSET_NAMES:
+        for b in range(256):
+            yield {"op": "offset_byte", "enc": n, "b": b}
+        for _ in range(40 if tier != "quick" else 10):
+            rows = [[rng.randrange(256) for _ in range(rng.choice([0, 1, 3, 6]))] for _ in range(rng.choice([1, 2, 4]))]
+            yield {"op": "offset_rows", "enc": n, "rows": rows}
     encs = _encs()
     alph = {n: [ord(c) for c in E.get_alphabet()] for n, E in encs.items()}
     big = tier in ("thorough", "widen")
@@ -165,7 +198,7 @@ def cases(tier, rng):
 
 
 def nontrivial(c):
-    if c["op"] == "enc_byte":
+    if c["op"] in ("enc_byte", "offset_byte", "offset_rows"):
         return True
     if c["op"] in ("retarget", "change", "retarget_view", "change_view"):
         return c["src"] != c["tgt"]
@@ -184,6 +217,20 @@ def impl(c):
     bnp, EncodedArray, EncodedRaggedArray, BaseEncoding, as_encoded_array, change_encoding, Err = _bnp()
     op = c["op"]
     try:
+        if op == "offset_byte":
+            E = _offset_encs()[c["enc"]]
+            code = np.asarray(E.encode(EncodedArray(np.array([c["b"]], dtype=np.uint8), BaseEncoding))).ravel()
+            back = E.decode(code.copy())
+            return {"code": int(code[0]), "dec": int(np.asarray(back.raw() if hasattr(back, "raw") else back).ravel()[0])}
+        if op == "offset_rows":
+            E = _offset_encs()[c["enc"]]
+            flat = np.array([x for r in c["rows"] for x in r], dtype=np.uint8)
+            ra = EncodedRaggedArray(EncodedArray(flat, BaseEncoding), [len(r) for r in c["rows"]])
+            q = E.encode(ra)
+            back = E.decode(q)
+            lens = [int(k) for k in q.lengths] if hasattr(q, "lengths") else None
+            return {"codes": [int(x) for x in np.asarray(q.ravel())], "lens": lens,
+                    "dec": [int(x) for x in np.asarray(back.ravel().raw() if hasattr(back.ravel(), "raw") else back.ravel())], "input_unchanged": [int(x) for x in flat] == [x for r in c["rows"] for x in r]}
         if op == "enc_byte":
             E = _encs()[c["enc"]]
             if c["via"] == "str":
@@ -275,8 +322,18 @@ def _accepts(A, b):
     return b in A or (97 <= b <= 122 and (b - 32) in A)
 
 
+OFFSET_MIN = {"NumDigitEncoding": 48, "QualityEncoding": 33, "CigarEncoding": 0}      # '0', '!', NUL: written here independently
+
+
 def oracle(c):
     op = c["op"]
+    if op == "offset_byte":
+        m = OFFSET_MIN[c["enc"]]
+        return {"code": (c["b"] - m) % 256, "dec": c["b"]}
+    if op == "offset_rows":
+        m = OFFSET_MIN[c["enc"]]
+        flat = [x for r in c["rows"] for x in r]
+        return {"codes": [(b - m) % 256 for b in flat], "lens": [len(r) for r in c["rows"]], "dec": flat, "input_unchanged": True}
     if op in ("retarget_view", "change_view"):
         return {"rows_or_error": [[_up(b) for b in r] for r in _select_rows(c["rows"], c)]}
     if op in ("retarget", "change"):
@@ -331,6 +388,8 @@ def model_request(c):
 
 def finding_key(c, got, exp):
     op = c["op"]
+    if op in ("offset_byte", "offset_rows"):
+        return "offset-encoding:" + c["enc"]
     if op in ("enc_byte", "enc_str", "enc_ragged"):
         if isinstance(got, dict) and "err" not in got and "err" in exp:
             return "encode:accepts-foreign-byte"
